@@ -120,17 +120,17 @@ func main() {
 		}
 	}
 	cov := map[string]any{
-		"evaluations":         tot.Evals,
-		"distinct_nontrivial": len(distinct),
-		"nontrivial_evaluations": tot.NTCount,
-		"rule":                m.Rule,
-		"samples":             samples,
-		"labels":              sorted(tot.Labels),
-		"discards":            sorted(tot.Discards),
+		"evaluations":               tot.Evals,
+		"distinct_nontrivial":       len(distinct),
+		"nontrivial_evaluations":    tot.NTCount,
+		"rule":                      m.Rule,
+		"samples":                   samples,
+		"labels":                    sorted(tot.Labels),
+		"discards":                  sorted(tot.Discards),
 		"excluded_by_known_finding": sorted(tot.Excluded),
-		"infra_events":        sorted(tot.Infra),
-		"shards":              nfiles,
-		"saved_cases_replayed": *replays,
+		"infra_events":              sorted(tot.Infra),
+		"shards":                    nfiles,
+		"saved_cases_replayed":      *replays,
 	}
 	if allEx && nfiles > 0 {
 		cov["exhaustive"] = true
